@@ -300,11 +300,55 @@ def run(tier, seed):
             from ..rules import require_on_success
             fname = ("load", ("field", HDR, "filename", ("param", 1)))
             nlen = ("load", ("gep", ("param", 0), [1]))
+            M_ih = Matcher(ih)
+            from ..rules import success_edges
             require_on_success(rep, rid, ctx, ih, [
                 ("version byte == 0", ("eq", ("load", ("or", ("param", 0), ("gep", ("param", 0), [0]))), 0)),
                 ("name length == strlen(member name)", ("eq", nlen, ("call", "strlen", [fname]))),
                 ("name bytes equal (memcmp over that length == 0)", ("eq", ("call", "memcmp", [("gep", ("param", 0), [2]), fname, ANY]), 0)),
             ])
+            # the member's length is the fork lengths plus the 128-byte header, rounded UP to a multiple of 128 (unchanged when it already is
+            # one): the expression compared with header->length is evaluated for sample fork lengths on both sides of the block boundaries
+            from ..exprval import eval_int
+            Fi = ctx.facts(ih)
+            hl = ("load", ("field", HDR, "length", ("param", 1)))
+            forks = [c_ for c_ in ih.insts() if c_.op == "call" and mod.callee_cname(c_) in ("lha_decode_be_uint32", "lha_decode_uint32")]
+            cmpd = []
+            for v_, pb_, b_ in success_edges(Fi, ih):
+                fs_ = Fi.on_edge(pb_, b_) if pb_ is not None else Fi.at_block(b_)
+                for f_ in fs_:
+                    if f_[0] == "eq" and not is_const(f_[2]):
+                        for x_, y_ in ((f_[1], f_[2]), (f_[2], f_[1])):
+                            if M_ih.match(hl, x_, {}) is not None:
+                                cmpd.append(y_)
+            def leaves(o_, acc, depth=0):
+                d_ = ih.defn(o_)
+                if d_ is None or d_.is_param or depth > 12:
+                    return
+                if d_.op == "call":
+                    acc.add(d_.id)
+                    return
+                for x__ in d_.ops:
+                    if x__[0] == "v":
+                        leaves(x__, acc, depth + 1)
+            if cmpd:
+                acc_ = set()
+                leaves(cmpd[0], acc_)
+                forks = [c_ for c_ in forks if c_.id in acc_]
+            okr, detail_r = bool(cmpd) and len(forks) == 2, None
+            if okr:
+                samples = [(a_, b_) for a_ in (0, 1, 5, 127, 128, 129, 255, 256, 300, 1024, 70000) for b_ in (0, 1, 127, 128, 200)]
+                for e_ in cmpd[:2]:
+                    for a_, b_ in samples:
+                        got = eval_int(ih, e_, {forks[0].id: a_, forks[1].id: b_})
+                        want = ((a_ + b_ + 128 + 127) // 128) * 128
+                        if got is None or (got & 0xFFFFFFFF) != (want & 0xFFFFFFFF):
+                            okr, detail_r = False, "for fork lengths %d + %d the member length is compared with %s, the envelope occupies %d" % (a_, b_, got, want)
+                            break
+                    if not okr:
+                        break
+            rep.check(rid, okr, "member length == fork lengths + 128, rounded up to a multiple of 128 (evaluated for %d sample pairs)" % 55, ih.file,
+                      detail_r or ("comparison with header->length not found on the successful returns" if not okr else None), function=ih.cname, obj="fork-round")
             # the memcmp length is the name-length byte
             Mi = Matcher(ih)
             for c in ih.calls("memcmp"):
